@@ -43,7 +43,7 @@ struct Ops13 {
     circ: Vec<f64>, icirc: Vec<f64>, wwinvx: Vec<f64>, winvwx: Vec<f64>, w1x: Vec<f64>, wty: Vec<f64>,
 }
 /// drives every scaling-related entry point of a symmetric cone whose scaling was just updated
-fn drive<C: Cone<f64> + SymmetricCone<f64> + JordanAlgebra<f64>>(c: &mut C, z: &[f64], x: &[f64], y: &[f64], a: f64, b: f64, sigmamu: f64, hslen: usize) -> Ops13 {
+fn drive<C: Cone<f64> + SymmetricCone<f64> + JordanAlgebra<f64>>(c: &mut C, z: &[f64], x: &[f64], y: &[f64], a: f64, b: f64, sigmamu: f64, hslen: usize, with_inv_circ: bool) -> Ops13 {
     let n = x.len();
     let mut wx = y.to_vec();
     vh::mul_W(c, false, &mut wx, x, a, b);
@@ -64,7 +64,7 @@ fn drive<C: Cone<f64> + SymmetricCone<f64> + JordanAlgebra<f64>>(c: &mut C, z: &
     let mut circ = vec![0.0; n];
     c.circ_op(&mut circ, x, y);
     let mut icirc = vec![0.0; n];
-    c.inv_circ_op(&mut icirc, z, y);
+    if with_inv_circ { c.inv_circ_op(&mut icirc, z, y); }
     // inverse / transpose consistency on the implementation's own outputs (alpha = 1, beta = 0)
     let mut t1 = vec![0.0; n];
     vh::mul_Winv(c, false, &mut t1, x, 1.0, 0.0);
@@ -87,7 +87,7 @@ fn nn_case(g: &mut Gen, s: &[f64], z: &[f64], x: &[f64], y: &[f64], a: f64, b: f
         let ok = c.update_scaling(s, z, 1.0, ScalingStrategy::PrimalDual);
         let w = c.verif_w().to_vec();
         let lam = c.verif_lambda().to_vec();
-        let o = drive(&mut c, z, x, y, a, b, sigmamu, n);
+        let o = drive(&mut c, z, x, y, a, b, sigmamu, n, true);
         (ok, w, lam, o, c.Hs_is_diagonal())
     });
     let Some((ok, w, lam, o, diag)) = r else { g.sink.case("nn_scaling", input, "1%N".into(), &[tag, "panic"]); return; };
@@ -121,7 +121,7 @@ fn soc_case(g: &mut Gen, s: &[f64], z: &[f64], x: &[f64], y: &[f64], a: f64, b: 
         let (u, v, d) = match &c.sparse_data { Some(sd) => (sd.u.clone(), sd.v.clone(), sd.d), None => (vec![], vec![], 0.0) };
         let (w, lam, eta) = (c.w.clone(), c.λ.clone(), c.η);
         let diag = c.Hs_is_diagonal();
-        let o = if ok { Some(drive(&mut c, z, x, y, a, b, sigmamu, hslen)) } else { None };
+        let o = if ok { Some(drive(&mut c, z, x, y, a, b, sigmamu, hslen, true)) } else { None };
         (ok, sparse, diag, w, lam, eta, u, v, d, o)
     });
     let Some((ok, sparse, diag, w, lam, eta, u, v, d, o)) = r else { g.sink.case("soc_scaling", input, "1%N".into(), &[tag, "panic"]); return; };
@@ -158,6 +158,48 @@ fn soc_case(g: &mut Gen, s: &[f64], z: &[f64], x: &[f64], y: &[f64], a: f64, b: 
         ok == expect_ok, sparse == (n > 4) && diag == sparse, t, cfllist(s), cfllist(z), cfllist(x), cfllist(y), cfl(a), cfl(b), cfl(sigmamu), coq_obs, extra);
     g.sink.case("soc_scaling", input, coq, &[tag]);
     g.count(&format!("soc/{}/{}", if sparse { "sparse" } else { "dense" }, tag));
+}
+
+
+// ------------------------------------------------------------------ PSD cone (partial: per-call validation)
+fn psd_case(g: &mut Gen, S: &Mat, Z: &Mat, X: &Mat, Y: &Mat, tag: &str) {
+    let n = S.len();
+    let (s, z, x, y) = (svec(S), svec(Z), svec(X), svec(Y));
+    let nv = s.len();
+    let input = json!({"cone": "psd", "n": n, "S": S, "Z": Z, "X": X, "Y": Y});
+    let r = guarded(|| {
+        let mut c = vh::PSDTriangleCone::<f64>::new(n);
+        let ok = c.update_scaling(&s, &z, 1.0, ScalingStrategy::PrimalDual);
+        let (lam, rr, ri) = (c.verif_lambda().to_vec(), c.verif_R(), c.verif_Rinv());
+        let mut wz = vec![0.0; nv];
+        vh::mul_W(&mut c, false, &mut wz, &z, 1.0, 0.0);
+        let mut wits = vec![0.0; nv];
+        vh::mul_Winv(&mut c, true, &mut wits, &s, 1.0, 0.0);
+        let mut hsz = vec![0.0; nv];
+        let mut work = vec![0.0; nv];
+        c.mul_Hs(&mut hsz, &z, &mut work);
+        let o = drive(&mut c, &z, &x, &y, 1.0, 0.0, 0.5, nv * (nv + 1) / 2, false);
+        (ok, lam, rr, ri, wz, wits, hsz, o, c.Hs_is_diagonal())
+    });
+    let Some((ok, lam, rr, ri, wz, wits, hsz, o, diag)) = r else { g.sink.case("psd_scaling", input, "1%N".into(), &[tag, "panic"]); return; };
+    let fin = |v: &[f64]| v.iter().all(|x| x.is_finite());
+    if !(ok && fin(&lam) && fin(&rr) && fin(&ri) && fin(&wz) && fin(&wits) && fin(&hsz) && fin(&o.hs) && fin(&o.hsx) && fin(&o.wwinvx) && fin(&o.winvwx) && fin(&o.w1x) && fin(&o.wty)) {
+        g.sink.case("psd_scaling", input, "1%N".into(), &[tag, "nonfinite-or-refused"]);
+        return;
+    }
+    // expected svec(Λ): λ_k at the diagonal positions k(k+3)/2
+    let mut lamvec = vec![0.0; nv];
+    for k in 0..n { lamvec[k * (k + 3) / 2] = lam[k]; }
+    let sc = maxabs(&lam);
+    let coq = format!(
+        "(maxl [ofb {nd}; p_psd_nt (-30) {n} {r} {ri} {l} {S} {Z}; p_close2 (-26) {sc} {lv} {wz} {wits}; p_close2 (-26) {ssc} {sv} {hsz} {hsz}; p_hs_dense (-30) {hs} {x} {hsx}; p_inverse (-26) {xsc} {x} {ww} {ww2}; p_transpose (-30) {w1x} {y} {x} {wty}])",
+        nd = !diag, n = n, r = cdylist(&rr), ri = cdylist(&ri), l = cdylist(&lam), S = cdymat(S), Z = cdymat(Z),
+        sc = cdy(sc), lv = cdylist(&lamvec), wz = cdylist(&wz), wits = cdylist(&wits),
+        ssc = cdy(maxabs(&s)), sv = cdylist(&s), hsz = cdylist(&hsz),
+        hs = cdylist(&o.hs), x = cdylist(&x), hsx = cdylist(&o.hsx), xsc = cdy(maxabs(&x)), ww = cdylist(&o.wwinvx), ww2 = cdylist(&o.winvwx),
+        w1x = cdylist(&o.w1x), y = cdylist(&y), wty = cdylist(&o.wty));
+    g.sink.case("psd_scaling", input, coq, &[tag]);
+    g.count(&format!("psd/n{}/{}", n, tag));
 }
 
 const AB: [(f64, f64); 4] = [(1.0, 0.0), (-1.0, 0.0), (2.0, 0.5), (0.5, -1.0)];
@@ -207,6 +249,24 @@ fn generate(g: &mut Gen, thorough: bool) {
         soc_case(g, &s, &z, &x, &y, 1.0, 0.0, 0.5, 1.0, "integers");
         soc_case(g, &s, &s, &x, &y, 1.0, 0.0, 0.5, 1.0, "s-equals-z");
     }
+    // PSD cone, n = 1..5 (scaling through LAPACK; validated per call)
+    if blas_shim::AVAILABLE {
+        for _ in 0..reps {
+            for n in 1..=5usize {
+                for &(ms, mz, fl) in &[(1.0, 1.0, 0.3), (1e3, 1e-3, 0.3), (1.0, 1.0, 0.01), (1e-4, 1e2, 0.1)] {
+                    let S = psd_matrix(&mut g.rng, n, fl, ms);
+                    let Z = psd_matrix(&mut g.rng, n, fl, mz);
+                    let X = sym_matrix(&mut g.rng, n, 2.0);
+                    let Y = sym_matrix(&mut g.rng, n, 2.0);
+                    psd_case(g, &S, &Z, &X, &Y, if fl < 0.05 { "near-singular" } else { "generic" });
+                }
+                // S = Z (W = I up to rotation) and small integer data
+                let S = psd_matrix(&mut g.rng, n, 0.3, 1.0);
+                let X = sym_matrix(&mut g.rng, n, 2.0);
+                psd_case(g, &S, &S, &X, &X, "s-equals-z");
+            }
+        }
+    }
     // points not in the interior: update_scaling must refuse (returns false) in model and code
     soc_case(g, &[1.0, 1.0, 0.0], &[2.0, 1.0, 0.0], &[1.0, 0.0, 0.0], &[2.0, 1.0, 0.0], 1.0, 0.0, 0.5, 1.0, "boundary-refused");
     soc_case(g, &[2.0, 1.0, 0.0], &[1.0, 0.0, 2.0], &[1.0, 0.0, 0.0], &[2.0, 1.0, 0.0], 1.0, 0.0, 0.5, 1.0, "outside-refused");
@@ -216,7 +276,9 @@ fn replay(g: &mut Gen, v: &Value) {
     let inp = if v.get("input").is_some() { &v["input"] } else { v };
     let f = |k: &str| f64_vec(&inp[k]);
     let h = |k: &str| inp[k].as_f64().unwrap();
+    let m = |k: &str| -> Mat { inp[k].as_array().unwrap().iter().map(|r| f64_vec(r)).collect() };
     match inp["cone"].as_str().unwrap_or("soc") {
+        "psd" => psd_case(g, &m("S"), &m("Z"), &m("X"), &m("Y"), "replay"),
         "nn" => nn_case(g, &f("s"), &f("z"), &f("x"), &f("y"), h("a"), h("b"), h("sigmamu"), "replay"),
         _ => soc_case(g, &f("s"), &f("z"), &f("x"), &f("y"), h("a"), h("b"), h("sigmamu"), inp.get("dist").and_then(|d| d.as_f64()).unwrap_or(1.0), "replay"),
     }
